@@ -211,6 +211,9 @@ class HelicityModel:
         symbols |= set(self.kinematic_variables)
         for expr in self.kinematic_variables.values():
             symbols |= expr.free_symbols  # type: ignore[arg-type]
+        # parameters do not have to appear in the expression, like the masses of stable
+        # final states that only occur in the definitions of the kinematic variables
+        symbols |= set(self.parameter_defaults)
         return symbols
 
 
